@@ -151,7 +151,7 @@ def ackFreqDelayOverflows (b : Bytes) : Bool :=
 def roundTripDomain : Frame → Bool
   | .ack ranges d e0 e1 ce =>
     validateAckRanges ranges && ranges.length ≤ maxNumAckRanges && d % (1000 * 2 ^ sendAckDelayExponent) = 0
-      && ranges.all (fun r => r.2 < 2 ^ 62) && e0 < 2 ^ 62 && e1 < 2 ^ 62 && ce < 2 ^ 62 && d / 8000 < 2 ^ 62
+      && ranges.all (fun r => r.2 < 2 ^ 62) && e0 < 2 ^ 62 && e1 < 2 ^ 62 && ce < 2 ^ 62 && d < 2 ^ 63
   | .resetStream sid ec fs rs => sid < 2 ^ 62 && ec < 2 ^ 62 && fs < 2 ^ 62 && rs ≤ fs
   | .stopSending sid ec => sid < 2 ^ 62 && ec < 2 ^ 62
   | .crypto off _ => off < 2 ^ 62
